@@ -34,7 +34,7 @@ def _states_of(c: Any) -> list[int] | None:
     r = c.recipe
     if r["kind"] == "template":
         return r.get("states")
-    if r["kind"] == "rg":
+    if r["kind"] in ("rg", "dag"):
         kind, k = c.domain
         if kind != "discrete":
             return None
@@ -100,6 +100,8 @@ def install(w: Any) -> None:
         if r["kind"] == "template":
             a = r["args"]
             return f"{r['template']}:{a.get('rg', '')}:{a.get('input', '')}:{a.get('sp', '')}"
+        if r["kind"] == "dag":
+            return f"dag:{r['input']['type']}:{len(r['nodes'])} nodes"
         return f"rg:{r['rg']['algo']}:{r['input']['type']}:{r['sp']}:{r.get('nary')}"
 
     def check(c: Any, where: str, after_update: bool) -> None:
